@@ -80,10 +80,14 @@ class Maildir(_Maildir):
             else:
                 yield name.rsplit(self.colon, 1)[0]
 
-    def move_message(self, key: str, dest: Maildir, dest_subdir: str) -> str:
-        """Moves the message to another maildir."""
+    def move_message(self, key: str, dest: Maildir, dest_subdir: str,
+                     flags: str | None = None) -> str:
+        """Moves the message to another maildir, with the maildir flag
+        letters *flags* if given."""
         subpath = self._lookup(key)
         subdir, name = self._split(subpath)
+        if flags is not None:
+            name = key + self.colon + '2,' + ''.join(sorted(flags))
         dest_subpath = os.path.join(dest_subdir, name)
         path = self._join(subpath)
         dest_path = dest._join(dest_subpath)
@@ -280,6 +284,11 @@ class MailboxData(MailboxDataInterface[Message]):
             new_rec.uid, maildir_msg, maildir, key, email_id, thread_id,
             self.maildir_flags)
 
+    def _dest_flags(self, codes: str, destination: MailboxData) -> str:
+        # keyword letters are per-folder: translate them through both tables
+        return destination.maildir_flags.to_maildir(
+            self.maildir_flags.from_maildir(codes))
+
     async def copy(self, uid: int, destination: MailboxData, *,
                    recent: bool = False) -> int | None:
         dest_maildir = destination._maildir
@@ -291,6 +300,7 @@ class MailboxData(MailboxDataInterface[Message]):
         except (KeyError, FileNotFoundError):
             return None
         copy_msg.set_subdir('new' if recent else 'cur')
+        copy_msg.set_flags(self._dest_flags(copy_msg.get_flags(), destination))
         async with destination.messages_lock.write_lock():
             dest_key = dest_maildir.add(copy_msg)
             dest_filename = dest_key + ':' + copy_msg.get_info()
@@ -320,8 +330,10 @@ class MailboxData(MailboxDataInterface[Message]):
         async with (destination.messages_lock.write_lock(),
                     self.messages_lock.write_lock()):
             try:
+                codes = maildir.get_message_metadata(rec.key).get_flags()
                 new_filename = maildir.move_message(
-                    rec.key, dest_maildir, dest_subdir)
+                    rec.key, dest_maildir, dest_subdir,
+                    self._dest_flags(codes, destination))
             except (KeyError, FileNotFoundError):
                 return None
         async with UidList.with_write(self._path) as uidl:
